@@ -194,7 +194,7 @@ def synthesize(missing, verif, outdir, all_patterns=()):
         for p in ps:
             if p["name"] in OPS:
                 tag = "op_" + re.sub(r"\W", lambda m: "%02x" % ord(m.group(0)), OPS[p["name"]])
-                for a in PAYLOADS + ["o", "co", "1"]:
+                for a in PAYLOADS + ["1"]:
                     L.append("    try_%s::call(0, %s, %s);" % (tag, "co" if p.get("constm") else "o", a))
                 continue
             for args in argument_lists(p.get("params", [])):
